@@ -216,7 +216,7 @@ func nativeReplay(spec *Spec, l *loaded, tapes map[string]*engine.Tape, watchdog
 	args := append([]string{"test", "-vet=off", "-count=1", "-timeout", "20m", "-run", "^TestVerifReplay$", "-v", "-overlay", ovf}, pats...)
 	cmd := exec.Command("go", args...)
 	cmd.Dir = repoRoot
-	cmd.Env = append(goEnv(), "VERIF_TAPES="+tdir, "GOCACHE="+goCache())
+	cmd.Env = append(goEnv(), "VERIF_TAPES="+tdir, "GOCACHE="+goCache(), "GOEXPERIMENT=synctest")
 	if watchdog != "" {
 		cmd.Env = append(cmd.Env, "VERIF_WATCHDOG="+watchdog)
 	}
